@@ -4,7 +4,13 @@
 //
 //   impl=<memory hex>;<returned indices>;<flags>;<size()>;<size_bytes>
 //   vec=<contents hex>;<returned indices>;<length>
-#define SBEPP_ENABLE_ASSERTS_WITH_HANDLER
+// -DC13_UNCHECKED builds the same harness without assertions and size checks
+// (what an NDEBUG build executes); it is only fed sequences that are valid.
+#ifdef C13_UNCHECKED
+#    define SBEPP_DISABLE_ASSERTS
+#else
+#    define SBEPP_ENABLE_ASSERTS_WITH_HANDLER
+#endif
 #include "proto.hpp"
 
 #include <sbepp/sbepp.hpp>
@@ -16,6 +22,7 @@
 #include <limits>
 #include <type_traits>
 
+#ifndef C13_UNCHECKED
 namespace sbepp
 {
 [[noreturn]] void assertion_failed(
@@ -24,6 +31,7 @@ namespace sbepp
     proto::assertion_jump();
 }
 } // namespace sbepp
+#endif
 
 namespace
 {
